@@ -142,6 +142,7 @@ def feature_obligations(seed):
             obs.append(feature_history_ob(fname, und, tag))
     obs.append(prev_hedge_ob())
     obs.append(feature_list_ob())
+    obs.append(rebind_ob())
     return obs
 
 
@@ -344,6 +345,106 @@ def prev_hedge_ob():
         return Verdict('proved', 'path-exploration', time.time() - t0, '', sample={'claim': 'PrevHedge.get(i) is hedger.prev_output (same values and shape); state dependent', 'get(None)': [p.outcome() for p in p2]})
     return Obligation('HS/feature/prev_hedge/post', 'post', 'pfhedge.features.features.PrevHedge.get', check, ['C03', 'C14', 'C16'],
                       clause='PrevHedge.get(i) returns the hedger\'s prev_output buffer (its values and shape); the feature is state dependent')
+
+
+def rebind_ob():
+    """C02/C03/C16: `of(derivative, hedger)` binds to the objects GIVEN, whatever the feature was bound to before:
+    a ModuleOutput / FeatureList containing prev_hedge, used by one hedger and then handed to another hedger (and/or another
+    derivative), reads the second hedger's own previous output and the second derivative's data - as a fresh feature does."""
+    def check():
+        t0 = time.time()
+        import torch
+        import pfhedge.nn as pnn
+        import pfhedge.instruments as pi
+        from pfhedge.features import ModuleOutput, FeatureList
+        from pfv.torchlib.tensor import Tensor
+        DT2 = tm.var('dt2')
+        hyps = DIMS + [tm.gt(DT2, tm.ZERO), tm.gt(tm.var('K2'), tm.ZERO)] + STEP
+
+        class _G(torch.nn.Module):
+            def forward(self, x):
+                rd = x.reader()
+                Fn = x._shape[-1]
+                return Tensor.fresh(lambda idx: tm.app('G', *[rd(idx[:-1] + (tm.const(k_, 'I'),)) for k_ in range(Fn)]), x._shape[:-1] + (1,), x.dtype, x.deps)
+        rows = []
+        for (what, same_derivative) in (('another hedger, same derivative', True), ('another hedger and another derivative', False)):
+            for kind in ('ModuleOutput', 'FeatureList'):
+                def run(c):
+                    d = mk_derivative()
+                    assume_positive_spot(c)
+                    s2 = pi.BrownianStock(sigma=SReal(tm.var('sigma2')), dt=SReal(DT2), dtype=torch.float64)
+                    s2.register_buffer('spot', Tensor.input('spot2', (N, T), torch.float64))
+                    assume_positive_spot(c, 'spot2')
+                    d2 = d if same_derivative else pi.EuropeanOption(s2, strike=SReal(tm.var('K2')))
+                    h1, h2 = pnn.Hedger(pnn.Naked(), ['prev_hedge']), pnn.Hedger(pnn.Naked(), ['prev_hedge'])
+                    h1.register_buffer('prev_output', Tensor.input('prevA', (N, 1, 1), torch.float64), persistent=False)
+                    h2.register_buffer('prev_output', Tensor.input('prevB', (N, 1, 1), torch.float64), persistent=False)
+                    mk = (lambda: ModuleOutput(_G(), inputs=['log_moneyness', 'prev_hedge'])) if kind == 'ModuleOutput' else (lambda: FeatureList(['log_moneyness', 'prev_hedge']))
+                    f = mk()
+                    g1 = f.of(d, h1)
+                    g1.get(SInt(I))                       # used by the first hedger
+                    g2 = f.of(d2, h2)                     # ... then handed to the second
+                    fresh = mk().of(d2, h2)
+                    return g2.get(SInt(I)), fresh.get(SInt(I))
+                paths = explore(run, hyps + [tm.gt(tm.var('sigma2'), tm.ZERO)], max_paths=8)
+                n, k = tm.var('n', 'I'), tm.var('k', 'I')
+                for p in paths:
+                    if p.outcome() != 'returns':
+                        return Verdict('unknown', 'engine', time.time() - t0, 'path %s: %s %s' % (p.outcome(), p.exception, p.traceback[-500:]))
+                    a, b = p.result
+                    if len(a._shape) != len(b._shape) or a._shape[-1] != b._shape[-1]:
+                        rows.append(('%s re-bound to %s: shape' % (kind, what), 'refuted', '%s vs %s' % (a._shape, b._shape)))
+                        continue
+                    for col in range(a._shape[-1]):
+                        r = fc.prove_eq(p.facts(hyps) + [tm.le(tm.IZERO, n), tm.lt(n, N)], a.at((n, tm.IZERO, tm.const(col, 'I'))), b.at((n, tm.IZERO, tm.const(col, 'I'))), timeout_ms=20000)
+                        rows.append(('%s re-bound to %s equals a fresh one (column %d)' % (kind, what, col), {'unsat': 'proved', 'sat': 'refuted'}.get(r.status, 'unknown'),
+                                     '%s vs %s' % (tm.show(a.at((n, tm.IZERO, tm.const(col, 'I'))))[:150], tm.show(b.at((n, tm.IZERO, tm.const(col, 'I'))))[:150]) if r.status != 'unsat' else ''))
+        bad = [r for r in rows if r[1] == 'refuted']
+        unk = [r for r in rows if r[1] == 'unknown']
+        sample = {'claim': 'of(derivative, hedger) binds to the given objects regardless of earlier bindings', 'vcs': [{'vc': r[0], 'status': r[1]} for r in rows]}
+        if bad:
+            return Verdict('refuted', 'z3', time.time() - t0, '; '.join('%s: %s' % (r[0], r[2]) for r in bad)[:600], witness={'failed': [r[0] for r in bad]}, sample=sample, replay=_replay_rebind())
+        if unk:
+            return Verdict('unknown', 'z3', time.time() - t0, '; '.join('%s: %s' % (r[0], r[2]) for r in unk)[:600], sample=sample)
+        return Verdict('proved', 'z3', time.time() - t0, '%d VCs' % len(rows), sample=sample)
+    return Obligation('HS/feature/of/rebinding', 'post', 'pfhedge.features.container.ModuleOutput.of', check, ['C02', 'C03', 'C16'],
+                      clause='a ModuleOutput / FeatureList (with prev_hedge inside) that was bound to one hedger and derivative and is then bound to another equals a freshly built one: it reads the second hedger\'s previous output and the second derivative\'s data')
+
+
+REBIND_REPLAY = '''
+import pfhedge.nn as pnn
+from pfhedge.features import ModuleOutput
+from pfhedge.instruments import BrownianStock, EuropeanOption
+torch.manual_seed(2)
+bad = []
+d = EuropeanOption(BrownianStock(sigma=0.3, dt=0.01), strike=1.02, maturity=0.06); d.simulate(n_paths=5)
+layer = torch.nn.Sequential(torch.nn.Linear(2, 2), torch.nn.Tanh())
+shared = ModuleOutput(layer, inputs=["log_moneyness", "prev_hedge"])
+h1 = pnn.Hedger(torch.nn.Linear(2, 1), [shared]); h2 = pnn.Hedger(torch.nn.Linear(2, 1), [shared])
+with torch.no_grad():
+    h2.model.weight.mul_(3.0).add_(0.5)
+def reference(h):
+    # explicit recursion with THIS hedger's own previous output
+    s = d.ul().spot; prev = torch.zeros(5, 1); outs = []
+    for t in range(s.size(1) - 1):
+        x = torch.stack([(s[:, t] / 1.02).log(), prev[:, 0]], dim=-1)
+        prev = h.model(layer(x)); outs.append(prev)
+    outs.append(outs[-1])
+    return torch.stack(outs, dim=-1).transpose(1, 2).transpose(1, 2)
+with torch.no_grad():
+    for rnd in range(2):
+        for nm, h in (("first hedger", h1), ("second hedger", h2)):
+            got = h.compute_hedge(d)
+            ref = reference(h)
+            if got.shape != ref.shape or not torch.allclose(got, ref, atol=1e-6): bad.append((nm, "round %d" % rnd, float((got - ref).abs().max()) if got.shape == ref.shape else str(tuple(got.shape))))
+result = {"got": [str(b) for b in bad], "ref": []}
+'''
+
+
+def _replay_rebind():
+    r = real_exec(REBIND_REPLAY, {}, timeout=300)
+    ok = r.get('ok') and r['result']['got'] == []
+    return {'real': r, 'confirmed': not ok, 'note': 'replay: two hedgers sharing one ModuleOutput feature with prev_hedge among its inputs, evaluated alternately, each against an explicit recursion with its own previous output'}
 
 
 def feature_list_ob():
